@@ -235,7 +235,8 @@ Qed.
 Lemma send_panics_only_if_closed : forall s i s',
   step op template s i = Some s' -> panicked op s = false -> panicked op s' = true ->
   exists t c r, nth_error (threads op s) i = Some t /\
-    (rest op t = Send op c :: r \/ rest op t = CloseCh op c :: r) /\ chan_closed op s c = true.
+    (rest op t = Send op c :: r \/ rest op t = CloseCh op c :: r \/
+     exists x, rest op t = SendIfOpen op x c :: r /\ flag_set op s x = false) /\ chan_closed op s c = true.
 Proof.
   intros s i s' Hs Hp Hp'. unfold step in Hs. rewrite Hp in Hs.
   destruct (nth_error (threads op s) i) as [t|] eqn:Hn; [|discriminate].
@@ -250,6 +251,11 @@ Proof.
     + inversion Hs; subst; cbn in Hp'; congruence.
   - destruct (chan_closed op s c); inversion Hs; subst; cbn in Hp'; congruence.
   - destruct (flag_set op s x); inversion Hs; subst; cbn in Hp'; congruence.
+  - destruct (flag_set op s x); inversion Hs; subst; cbn in Hp'; congruence.
+  - destruct (flag_set op s x) eqn:Hf; [inversion Hs; subst; cbn in Hp'; congruence|].
+    destruct (chan_closed op s c) eqn:Hc.
+    + exists t, c, r. split; auto. split; auto. right. right. exists x. auto.
+    + inversion Hs; subst; cbn in Hp'; congruence.
 Qed.
 
 (* ====================================================================== *)
